@@ -5,25 +5,33 @@ from common import *
 LENS = 'sdk'
 TRACE_MODULE = 'Trace_IggySdk'
 FAMILIES = {'C20': ['sdk']}
-MODES_MC = '{"polling","each","all","nth","interval","manual","interval_or_polling","interval_or_each","interval_or_all","interval_or_nth"}'
-MODES = ['disabled', 'polling', 'each', 'all', 'nth', 'interval', 'interval_or_polling', 'interval_or_each', 'interval_or_all', 'interval_or_nth']
+MODES_MC = ('{"polling","each","all","nth","interval","manual","interval_or_polling","interval_or_each","interval_or_all","interval_or_nth",'
+            '"after_each","after_all","after_nth","interval_or_after_each","interval_or_after_all","interval_or_after_nth"}')
+MODES = ['disabled', 'polling', 'each', 'all', 'nth', 'interval', 'interval_or_polling', 'interval_or_each', 'interval_or_all', 'interval_or_nth',
+         'after_each', 'after_all', 'after_nth', 'interval_or_after_each', 'interval_or_after_all', 'interval_or_after_nth']
 
 
 def mc_family(family, tier, wd):
-    consts = dict(Parts='{1,2}', MaxLen=3 if tier == 'quick' else 4, Batches='{1,2,3}', Modes=MODES_MC, Nth=2, MaxOps=1000, CatchUp='TRUE')
+    consts = dict(Parts='{1,2}', MaxLen=3 if tier == 'quick' else 4, Batches='{1,2,3}', Modes=MODES_MC, Nth=2, MaxOps=1000, CatchUp='"nothing_new"', Zombie='FALSE')
     cfg = os.path.join(wd, 'MC_sdk.cfg')
-    write_cfg(cfg, 'MCSpec', consts, invariants=['InOrderOnce', 'InvCommitLeFetched', 'InvCommitLeYielded', 'Complete'], view='View')
+    write_cfg(cfg, 'MCSpec', consts, invariants=['InOrderOnce', 'InvCommitLeFetched', 'InvCommitLeYielded', 'Complete'], properties=['NoRewindByDropped'], view='View')
     t0 = time.time()
     r = tlc_mc('MC_IggySdk', cfg, wd, workers=8, timeout=2400)
-    # negative control: the consumer as found (no catch-up commit) must be refuted - the stall of finding D28
-    cfg2 = os.path.join(wd, 'MC_sdk_asfound.cfg')
-    write_cfg(cfg2, 'MCSpec', dict(consts, CatchUp='FALSE', Modes='{"nth"}'), invariants=['Complete'], view='View')
-    r2 = tlc_mc('MC_IggySdk', cfg2, wd, workers=2, timeout=600)
-    if r2['ok']:
-        raise ToolError('the as-found consumer algorithm (CatchUp = FALSE) was NOT refuted: the model lost its teeth')
+    # negative controls: the three as-found variants must be refuted (findings D28, D29, D30)
+    controls = []
+    for name, over, inv in (('D28 no catch-up commit', dict(CatchUp='"none"', Modes='{"nth"}'), 'Complete'),
+                            ('D29 catch-up by the local memory', dict(CatchUp='"lagging"', Modes='{"after_all"}'), 'Complete'),
+                            ('D30 interval task outlives the consumer', dict(Zombie='TRUE', Modes='{"interval"}'), 'NoRewindByDropped')):
+        cfg2 = os.path.join(wd, f'MC_sdk_asfound_{inv}_{len(controls)}.cfg')
+        write_cfg(cfg2, 'MCSpec', dict(consts, **over), view='View',
+                  **(dict(properties=[inv], invariants=[]) if inv.startswith('NoRewind') else dict(invariants=[inv])))
+        r2 = tlc_mc('MC_IggySdk', cfg2, wd, workers=2, timeout=600)
+        if r2['ok']:
+            raise ToolError(f'the as-found consumer algorithm ({name}) was NOT refuted: the model lost its teeth')
+        controls.append(f'{name}: {inv} refuted')
     log(f'sdk: MC {r["distinct"]} distinct states, {r["states"]} transitions in {time.time() - t0:.0f}s '
-        f'(consumer reference algorithm, all settings: InOrderOnce, CommitLeFetched, CommitLeYielded, Complete)')
-    r['consts'] = dict(consts, negative_control='CatchUp=FALSE (consumer as found) refuted: ' + ','.join(r2['violated']))
+        f'(consumer reference algorithm, all settings: InOrderOnce, CommitLeFetched, CommitLeYielded, Complete, NoRewindByDropped; as-found variants refuted)')
+    r['consts'] = dict(consts, negative_controls=controls)
     return r
 
 
@@ -77,7 +85,7 @@ def settings(rnd, n):
 
 def build_scenarios(families, tier, wd, seed):
     rnd = random.Random(seed)
-    consts = dict(Parts='{1,2}', MaxLen=3, Batches='{2}', Modes='{"each"}', Nth=2, CatchUp='TRUE', MaxOps=5 if tier == 'quick' else 6)
+    consts = dict(Parts='{1,2}', MaxLen=3, Batches='{2}', Modes='{"each"}', Nth=2, CatchUp='"nothing_new"', Zombie='FALSE', MaxOps=5 if tier == 'quick' else 6)
     cfg = os.path.join(wd, 'Gen_sdk.cfg')
     write_cfg(cfg, 'MCSpec', consts, invariants=['EmitScript'], constraint='Bounded')
     t0 = time.time()
@@ -119,5 +127,5 @@ RULES = {'C20': 'the real producer sent at least one batch and the real consumer
 ASSUMPTIONS = ['a consumer is re-created only after the background commits of the dropped one have landed (the harness waits for quiescence)',
                'completeness (nothing skipped, the idle consumer has reached the end) is demanded for the strategies next and offset; for first / last only "in order, nothing twice"',
                'mode disabled: the application (the harness) stores the offset of every message it has processed, the documented manual way',
-               'the After(...) commit modes of consume_messages() are not driven (they need a &\'static consumer object); the When(...) and Interval modes are',
+               'the After(...) commit modes are driven through consume_messages() (IggyConsumerMessageExt): every consume step is then one incarnation of the consumer',
                'no connection faults: send retries are configured but never triggered']
